@@ -342,3 +342,195 @@ theorem goal_percent (a : Ast) (hca : Canon a) (iha : Goal a) : Goal (.op "%" [a
   · simp [after, pend]
 
 end XL
+
+namespace XL
+
+theorem finalName_bin (name : String) (p : Prev) (hp : p = .operand ∨ p = .rparen ∨ p = .percent) : finalName name p = name := by
+  unfold finalName
+  split
+  · rcases hp with h | h | h <;> simp [h]
+  · rfl
+
+theorem goal_bin (name : String) (a b : Ast) (hn : name ∈ binNames) (hca : Canon a) (hcb : Canon b)
+    (iha : Goal a) (ihb : Goal b) : Goal (.op name [a, b]) := by
+  intro s he ht _
+  obtain ⟨⟨p, hp, hp5⟩, har, hrg, hnp, hns⟩ := bin_facts name hn
+  have h1 := not_operand_rparen s.prev he
+  have htoks : toks (.op name [a, b]) = .lp :: (toks a ++ (.opr name :: (toks b ++ [.rp]))) := by
+    simp [toks, toksBin, hnp, hns]
+  rw [htoks]
+  -- `(`
+  have hlp : step s .lp = .ok ⟨.lp 0 .pos false :: s.st, s.out, .lparen⟩ := by simp [step, h1]
+  rw [runToks_cons _ _ _ _ hlp (by simp)]
+  -- left operand
+  have ha := iha ⟨.lp 0 .pos false :: s.st, s.out, .lparen⟩ (Or.inl rfl) (by simp [TopLO]) (Or.inr (by simp [okTop]))
+  rw [runToks_append _ _ _ _ ha]
+  -- the operator: pending signs / percent of `a` are applied, the operator waits above the parenthesis
+  have hpa := prevAfter_ok a hca
+  have hop : step (after a ⟨.lp 0 .pos false :: s.st, s.out, .lparen⟩) (.opr name) =
+      .ok ⟨.op name :: .lp 1 .pos false :: s.st, a :: s.out, .opr⟩ := by
+    have hfn := finalName_bin name (prevAfter a) hpa
+    simp only [step, hnp, false_and, if_false, oprStep, after, hfn, hp, if_true, bump,
+      flush_popWhile a hca p (by omega), popWhile_lp]
+  rw [runToks_cons _ _ _ _ hop (by simp)]
+  -- right operand
+  have hb := ihb ⟨.op name :: .lp 1 .pos false :: s.st, a :: s.out, .opr⟩ (Or.inr (Or.inr rfl)) (by simp [TopLO]) (Or.inr (by simp [okTop, hn]))
+  rw [runToks_append _ _ _ _ hb]
+  -- `)`
+  apply runToks_single
+  · have hpb := prevAfter_ok b hcb
+    have hnsep : (prevAfter b = Prev.sep) = False := by
+      rcases hpb with h | h | h <;> simp [h]
+    have hst : s.st ≠ [] := by
+      intro h; rw [h] at ht; simp [TopLO] at ht
+    simp only [step, rparenStep, after, hnsep, if_false, closeParen, bump, flush_popToStart b hcb]
+    -- pop the operator, reach the parenthesis
+    have : popToStart (.op name :: .lp 1 .pos false :: s.st) (b :: a :: s.out) =
+        .ok (.lp 1 .pos false :: s.st, .op name [a, b] :: s.out) := by
+      unfold popToStart
+      simp only [applyOp_binary name a b s.out har hrg, popToStart_lp]
+    simp only [this]
+    -- the parenthesis is a plain one: no function below it
+    cases hs : s.st with
+    | nil => exact absurd hs hst
+    | cons x rest =>
+      rw [hs] at ht
+      cases x with
+      | fn f => simp [TopLO] at ht
+      | lp n c bb =>
+        simp [chkOk, unionSeps, Except.map, pend, core, prevAfter, hnp, hns]
+      | op nm =>
+        simp [chkOk, unionSeps, Except.map, pend, core, prevAfter, hnp, hns]
+  · simp [after, pend, hnp, hns]
+    exact topLO_ne s.st ht
+
+end XL
+
+namespace XL
+
+/-- the arguments of a call, one after the other: after the last one its pending operators are still on
+the stack, the others have been flushed by the separators -/
+theorem run_args : ∀ (args : List Ast), args ≠ [] → (∀ a ∈ args, Canon a) → (∀ a ∈ args, Goal a) →
+    ∀ (k : Nat) (c : Chk) (bb : Bool) (st0 : List SItem) (out : List Ast) (pv : Prev), Expects pv →
+      ∃ last o, Canon last ∧
+        runToks (toksSep args) ⟨.lp k c bb :: st0, out, pv⟩ =
+          .ok ⟨(pend last).map SItem.op ++ .lp (k + args.length) c bb :: st0, core last :: o, prevAfter last⟩ ∧
+        last :: o = args.reverse ++ out
+  | [], h, _, _ => absurd rfl h
+  | [a], _, hc, hg => by
+    intro k c bb st0 out pv hpv
+    refine ⟨a, out, hc a (by simp), ?_, by simp⟩
+    have := hg a (by simp) ⟨.lp k c bb :: st0, out, pv⟩ hpv (by simp [TopLO]) (Or.inr (by simp [okTop]))
+    simpa [toksSep, after, bump] using this
+  | a :: b :: rest, _, hc, hg => by
+    intro k c bb st0 out pv hpv
+    have hca := hc a (by simp)
+    have ha := hg a (by simp) ⟨.lp k c bb :: st0, out, pv⟩ hpv (by simp [TopLO]) (Or.inr (by simp [okTop]))
+    have htoks : toksSep (a :: b :: rest) = toks a ++ (.sep :: toksSep (b :: rest)) := by simp [toksSep]
+    rw [htoks, runToks_append _ _ _ _ ha]
+    -- the separator flushes what is pending
+    have hpa := prevAfter_ok a hca
+    have hns : (prevAfter a = Prev.sep ∨ prevAfter a = Prev.lparen) = False := by
+      rcases hpa with h | h | h <;> simp [h]
+    have hsep : step (after a ⟨.lp k c bb :: st0, out, pv⟩) .sep = .ok ⟨.lp (k + 1) c bb :: st0, a :: out, .sep⟩ := by
+      simp only [step, after, hns, if_false, bump, flush_popToStart a hca, popToStart_lp]
+      simp
+    rw [runToks_cons _ _ _ _ hsep (by simp)]
+    obtain ⟨last, o, hl, hrun, ho⟩ := run_args (b :: rest) (by simp) (fun x hx => hc x (by simp [hx])) (fun x hx => hg x (by simp [hx]))
+      (k + 1) c bb st0 (a :: out) .sep (Or.inr (Or.inl rfl))
+    refine ⟨last, o, hl, ?_, ?_⟩
+    · rw [hrun]
+      have : k + 1 + (b :: rest).length = k + (a :: b :: rest).length := by simp; omega
+      rw [this]
+    · rw [ho]; simp
+
+theorem goal_call (name : String) (args : List Ast) (hc : ∀ a ∈ args, Canon a) (hg : ∀ a ∈ args, Goal a) :
+    Goal (.call name args) := by
+  intro s he ht _
+  have h1 := not_operand_rparen s.prev he
+  have hst : s.st ≠ [] := by
+    intro h; rw [h] at ht; simp [TopLO] at ht
+  have htoks : toks (.call name args) = .fn name :: (toksSep args ++ [.rp]) := by simp [toks]
+  rw [htoks]
+  have hfn : step s (.fn name) = .ok ⟨.lp 0 .any false :: .fn name :: s.st, s.out, .lparen⟩ := by simp [step, h1, fnStep]
+  rw [runToks_cons _ _ _ _ hfn (by simp)]
+  cases hargs : args with
+  | nil =>
+    -- `F()`
+    simp only [toksSep, List.nil_append]
+    apply runToks_single
+    · simp [step, rparenStep, closeParen, popToStart_lp, chkOk, applyFn, Except.map, after, pend, core, prevAfter]
+    · simp [after, pend]; exact topLO_ne s.st ht
+  | cons a0 rest0 =>
+    obtain ⟨last, o, hl, hrun, ho⟩ := run_args args (by simp [hargs]) hc hg 0 .any false (.fn name :: s.st) s.out .lparen (Or.inl rfl)
+    rw [← hargs, runToks_append _ _ _ _ hrun]
+    apply runToks_single
+    · have hpl := prevAfter_ok last hl
+      have hnsep : (prevAfter last = Prev.sep) = False := by
+        rcases hpl with h | h | h <;> simp [h]
+      simp only [step, rparenStep, hnsep, if_false, closeParen, flush_popToStart last hl, popToStart_lp, Nat.zero_add]
+      have hlen : args.length ≤ (last :: o).length := by rw [ho]; simp
+      have htake : ((last :: o).take args.length).reverse = args := by
+        rw [ho, List.take_left' (by simp)]; simp
+      have hdrop : (last :: o).drop args.length = s.out := by
+        rw [ho, List.drop_left' (by simp)]
+      have hlen' : args.length ≤ o.length + 1 := by simpa using hlen
+      simp [chkOk, applyFn, hlen', htake, hdrop, Except.map, after, pend, core, prevAfter]
+    · simp [after, pend]; exact topLO_ne s.st ht
+
+/-- **what the state machine has done after the tokens of a canonical tree** -/
+theorem run_toks (t : Ast) (hc : Canon t) : Goal t := by
+  induction hc with
+  | operand k text => exact goal_operand k text
+  | bin name a b hn ha hb iha ihb => exact goal_bin name a b hn ha hb iha ihb
+  | sign name a hn ha haa iha => exact goal_sign name a hn ha haa iha
+  | percent a ha iha => exact goal_percent a ha iha
+  | call name args h ih => exact goal_call name args h ih
+
+/-- **the parser reads back the token rendering of every canonical tree** -/
+theorem parse_toks (t : Ast) (hc : Canon t) : parseToks (toks t) = .ok t := by
+  have h := run_toks t hc initState (Or.inl rfl) (by simp [initState, TopLO]) (Or.inr (by simp [initState, okTop]))
+  simp only [parseToks, h]
+  have hp := prevAfter_ok t hc
+  have hnsep : (prevAfter t = Prev.sep) = False := by
+    rcases hp with h | h | h <;> simp [h]
+  simp only [finish, rparenStep, after, initState, hnsep, if_false, closeParen, bump, flush_popToStart t hc, popToStart_lp]
+  simp [chkOk, unionSeps]
+
+end XL
+
+namespace XL
+
+/-- **redundant parentheses are transparent**: the tokens of a canonical tree inside an extra pair of
+parentheses leave exactly that tree on the builder -/
+theorem paren_transparent (t : Ast) (hc : Canon t) (s : PState) (he : Expects s.prev) (ht : TopLO s.st) :
+    runToks (.lp :: (toks t ++ [.rp])) s = .ok ⟨bump s.st, t :: s.out, .rparen⟩ := by
+  have h1 := not_operand_rparen s.prev he
+  have hst : s.st ≠ [] := by
+    intro h; rw [h] at ht; simp [TopLO] at ht
+  have hlp : step s .lp = .ok ⟨.lp 0 .pos false :: s.st, s.out, .lparen⟩ := by simp [step, h1]
+  rw [runToks_cons _ _ _ _ hlp (by simp)]
+  have ha := run_toks t hc ⟨.lp 0 .pos false :: s.st, s.out, .lparen⟩ (Or.inl rfl) (by simp [TopLO]) (Or.inr (by simp [okTop]))
+  rw [runToks_append _ _ _ _ ha]
+  apply runToks_single
+  · have hp := prevAfter_ok t hc
+    have hnsep : (prevAfter t = Prev.sep) = False := by
+      rcases hp with h | h | h <;> simp [h]
+    simp only [step, rparenStep, after, hnsep, if_false, closeParen, bump, flush_popToStart t hc, popToStart_lp]
+    cases hs : s.st with
+    | nil => exact absurd hs hst
+    | cons x rest =>
+      rw [hs] at ht
+      cases x with
+      | fn f => simp [TopLO] at ht
+      | lp n c bb => simp [chkOk, unionSeps, Except.map]
+      | op nm => simp [chkOk, unionSeps, Except.map]
+  · exact topLO_ne s.st ht
+
+/-- at top level: `=(t)` parses to the tree of `=t` -/
+theorem parse_extra_parens (t : Ast) (hc : Canon t) : parseToks (.lp :: (toks t ++ [.rp])) = .ok t := by
+  have h := paren_transparent t hc initState (Or.inl rfl) (by simp [initState, TopLO])
+  simp only [parseToks, h]
+  simp [finish, rparenStep, closeParen, initState, bump, popToStart_lp, chkOk, unionSeps]
+
+end XL
